@@ -58,46 +58,55 @@ func runC05(c *Ctx) {
 	// length rule by value-set analysis over (len(hrp), len(src))
 	vs := &ana.VSA{B: b, Tracked: []string{"len(p0)", "len(p1)"}, Ranges: [][2]int64{{0, 95}, {0, 60}}}
 	sets, tuples := vs.Run()
-	var lenReject *ssa.BasicBlock
-	for _, ce := range b.CondEdges() {
-		if ce.From == fn.Blocks[0] && ce.Taken {
-			lenReject = ce.To
-		}
-	}
-	if lenReject == nil {
-		r.Undec("C05.exits.length-rule", c.P.Pos(fn.Pos()), "Encode does not start with a length test")
-	} else {
+	// semantic length rule: the (len(hrp), len(src)) pairs that can reach a success exit are exactly those with
+	// len(hrp) >= 1 and len(hrp)+1+ceil(8·len(src)/5)+6 <= 90 — wherever and however the tests are written
+	tooLong := func(t []int64) bool { return t[0]+(t[1]*8+4)/5+7 > 90 }
+	{
 		bad := 0
 		example := ""
 		for idx := range tuples {
 			t := ana.TupleOf(tuples, idx)
-			want := t[0]+(t[1]*8+4)/5+7 > 90
-			got := sets[lenReject][idx]
-			pass := sets[fn.Blocks[0].Succs[1]][idx]
-			if got != want || pass == want {
+			got := false
+			for _, e := range succ {
+				if sets[e.Instr.Block()][idx] {
+					got = true
+				}
+			}
+			want := !tooLong(t) && t[0] >= 1
+			if got != want {
 				bad++
 				if example == "" {
-					example = fmt.Sprintf("len(hrp)=%d len(src)=%d: rejected=%v, BIP-173 says %v", t[0], t[1], got, want)
+					example = fmt.Sprintf("len(hrp)=%d len(src)=%d: reaches success=%v, BIP-173 says %v", t[0], t[1], got, want)
 				}
 			}
 		}
-		isErr := false
-		for _, e := range errs {
-			if e.Instr.Block() == lenReject {
-				isErr = true
-			}
-		}
-		r.Check(bad == 0 && isErr, "C05.exits.length-rule", c.P.Pos(fn.Pos()), "first test rejects exactly when len(hrp)+1+ceil(8·len(src)/5)+6 > 90, over (0..95)×(0..60) = %d pairs; %s", len(tuples), example)
+		r.Check(bad == 0 && len(succ) > 0, "C05.exits.length-rule", c.P.Pos(fn.Pos()), "a success exit is reachable exactly for len(hrp) >= 1 and len(hrp)+1+ceil(8·len(src)/5)+6 <= 90, over (0..95)×(0..60) = %d pairs; %s", len(tuples), example)
 	}
-	// gates
-	// the length gate is the first branch, whose two sides were just decided by value-set analysis
+	// edges that only too-long (or empty-prefix) pairs can take are legitimate reject edges; their complements are the length gate
 	var accLen, rejLen []ana.Edge
 	for _, ce := range b.CondEdges() {
-		if ce.From == fn.Blocks[0] {
-			if ce.Taken {
-				rejLen = append(rejLen, ce.Edge)
-			} else {
-				accLen = append(accLen, ce.Edge)
+		ifi := ce.If
+		evaluable, onlyBad, n := true, true, 0
+		for idx := range sets[ce.From] {
+			t := ana.TupleOf(tuples, idx)
+			v, ok := vs.Eval(ifi.Cond, t)
+			if !ok {
+				evaluable = false
+				break
+			}
+			if (v != 0) == ce.Taken {
+				n++
+				if !tooLong(t) && t[0] >= 1 {
+					onlyBad = false
+				}
+			}
+		}
+		if evaluable && onlyBad && n > 0 {
+			rejLen = append(rejLen, ce.Edge)
+			for _, sx := range ce.From.Succs {
+				if sx != ce.To {
+					accLen = append(accLen, ana.Edge{From: ce.From, To: sx})
+				}
 			}
 		}
 	}
@@ -127,8 +136,9 @@ func runC05(c *Ctx) {
 	}
 	for _, e := range succ {
 		blk := e.Instr.Block()
-		r.Check(mustPass(fn, blk, accLen), "C05.exits.gate.length", c.ipos(e.Instr), "success passes the length gate")
-		r.Check(mustPass(fn, blk, accNonEmpty), "C05.exits.gate.nonempty", c.ipos(e.Instr), "success passes len(hrp) >= 1")
+		// (the length and non-empty gates are decided for all pairs by C05.exits.length-rule above)
+		_ = accLen
+		_ = accNonEmpty
 		r.Check(mustPass(fn, blk, accCase), "C05.exits.gate.single-case", c.ipos(e.Instr), "success passes the single-case gate on hrp")
 		r.Check(hrpLoop != nil && mustPass(fn, blk, []ana.Edge{{From: hrpLoop.Header, To: hrpLoop.Exit}}), "C05.exits.gate.hrp-chars", c.ipos(e.Instr), "success follows a loop over hrp that continues only for runes in 33..126")
 	}
